@@ -107,21 +107,29 @@ func ints(v []uint64) []int64 {
 var absentRow = map[string]any{"present": false, "ce": 0, "le": 0, "rg": 0, "leader": 0,
 	"rep": []int64{}, "isr": []int64{}, "status": 0, "lease": 0, "rts": 0, "ftok": "", "fver": 0}
 
+// rowOf is GetChannelRuntimeMeta of one channel in the shape of the specification's row.
+func (s *rmSUT) rowOf(c string) (map[string]any, error) {
+	row, ok, err := s.shard(c).GetChannelRuntimeMeta(context.Background(), s.id(c), chanType)
+	if err != nil {
+		return nil, fmt.Errorf("GetChannelRuntimeMeta(%s): %w", c, err)
+	}
+	if !ok {
+		return absentRow, nil
+	}
+	return map[string]any{"present": true, "ce": row.ChannelEpoch, "le": row.LeaderEpoch,
+		"rg": row.RouteGeneration, "leader": row.Leader, "rep": ints(row.Replicas), "isr": ints(row.ISR),
+		"status": row.Status, "lease": row.LeaseUntilMS, "rts": row.RetentionThroughSeq,
+		"ftok": row.WriteFenceToken, "fver": row.WriteFenceVersion}, nil
+}
+
 func (s *rmSUT) proj() (map[string]any, error) {
 	out := map[string]any{}
 	for _, c := range s.chans {
-		row, ok, err := s.shard(c).GetChannelRuntimeMeta(context.Background(), s.id(c), chanType)
+		row, err := s.rowOf(c)
 		if err != nil {
-			return nil, fmt.Errorf("GetChannelRuntimeMeta(%s): %w", c, err)
+			return nil, err
 		}
-		if !ok {
-			out[c] = absentRow
-			continue
-		}
-		out[c] = map[string]any{"present": true, "ce": row.ChannelEpoch, "le": row.LeaderEpoch,
-			"rg": row.RouteGeneration, "leader": row.Leader, "rep": ints(row.Replicas), "isr": ints(row.ISR),
-			"status": row.Status, "lease": row.LeaseUntilMS, "rts": row.RetentionThroughSeq,
-			"ftok": row.WriteFenceToken, "fver": row.WriteFenceVersion}
+		out[c] = row
 	}
 	return out, nil
 }
@@ -145,6 +153,20 @@ func errClass(err error) (string, error) {
 // apply performs the call described by ev (its "res" is ignored) and returns the
 // observed reply and projection. A non-nil error is infrastructure trouble.
 func (s *rmSUT) apply(ev map[string]any) (map[string]any, map[string]any, error) {
+	res, err := s.call(ev)
+	if err != nil {
+		return nil, nil, err
+	}
+	st, err := s.proj()
+	if err != nil {
+		return nil, nil, err
+	}
+	return res, st, nil
+}
+
+// call performs the call described by ev and returns the observed reply only (safe for
+// concurrent use, except "Reopen").
+func (s *rmSUT) call(ev map[string]any) (map[string]any, error) {
 	ctx := context.Background()
 	var res map[string]any
 	switch kit.Str(ev, "a") {
@@ -153,7 +175,7 @@ func (s *rmSUT) apply(ev map[string]any) (map[string]any, map[string]any, error)
 		r, err := s.shard(c).UpsertChannelRuntimeMeta(ctx, s.meta(c, kit.Map(ev, "m")))
 		cls, ierr := errClass(err)
 		if ierr != nil {
-			return nil, nil, ierr
+			return nil, ierr
 		}
 		switch {
 		case r == metadb.MonotonicApplied && cls == "ok":
@@ -169,14 +191,14 @@ func (s *rmSUT) apply(ev map[string]any) (map[string]any, map[string]any, error)
 		c := kit.Str(ev, "c")
 		cls, ierr := errClass(s.shard(c).AdvanceChannelRetentionThroughSeq(ctx, s.advance(c, kit.Map(ev, "m"))))
 		if ierr != nil {
-			return nil, nil, ierr
+			return nil, ierr
 		}
 		res = map[string]any{"r": cls}
 	case "Delete":
 		c := kit.Str(ev, "c")
 		cls, ierr := errClass(s.shard(c).DeleteChannelRuntimeMeta(ctx, s.id(c), chanType))
 		if ierr != nil {
-			return nil, nil, ierr
+			return nil, ierr
 		}
 		res = map[string]any{"r": cls}
 	case "Batch":
@@ -201,13 +223,13 @@ func (s *rmSUT) apply(ev map[string]any) (map[string]any, map[string]any, error)
 			}
 			if err != nil {
 				_ = wb.Close()
-				return nil, nil, fmt.Errorf("staging op %d: %w", i, err)
+				return nil, fmt.Errorf("staging op %d: %w", i, err)
 			}
 		}
 		cls, ierr := errClass(wb.Commit())
 		_ = wb.Close()
 		if ierr != nil {
-			return nil, nil, ierr
+			return nil, ierr
 		}
 		flags := make([]bool, len(ops))
 		if cls == "ok" { // Created is meaningful only after a successful commit
@@ -216,24 +238,26 @@ func (s *rmSUT) apply(ev map[string]any) (map[string]any, map[string]any, error)
 			}
 		}
 		res = map[string]any{"err": cls, "created": flags}
+	case "Get": // concurrent stage only: a read that is part of the history
+		row, err := s.rowOf(kit.Str(ev, "c"))
+		if err != nil {
+			return nil, err
+		}
+		res = rowView(row)
 	case "Reopen":
 		if err := s.db.Close(); err != nil {
-			return nil, nil, fmt.Errorf("close: %w", err)
+			return nil, fmt.Errorf("close: %w", err)
 		}
 		db, err := metadb.Open(s.dir)
 		if err != nil {
-			return nil, nil, fmt.Errorf("reopen: %w", err)
+			return nil, fmt.Errorf("reopen: %w", err)
 		}
 		s.db = db
 		res = map[string]any{"ok": true}
 	default:
-		return nil, nil, fmt.Errorf("unknown action %q", kit.Str(ev, "a"))
+		return nil, fmt.Errorf("unknown action %q", kit.Str(ev, "a"))
 	}
-	st, err := s.proj()
-	if err != nil {
-		return nil, nil, err
-	}
-	return res, st, nil
+	return res, nil
 }
 
 // ---- seeded random driver (code -> spec) -------------------------------------------
